@@ -14,6 +14,9 @@ import vlib, proto
 def run(c):
     thorough = c.tier == 'thorough'
     vlib.table_check(c, 'Header', 'Header.cfg', 'c14', workers=1, tlc_timeout=600)
+    # a reader of stored values beside the iterators: the tomb sweeper must refuse values of another header version,
+    # with an extension count beyond the bytes present or too short - not misread them as expired markers
+    vlib.absorb(c, vlib.run_harness(['sweepmalformed', 'C14'], timeout=300))
     # the write side: all Merge/Clean table rows on the real iterator (values checked by WellFormedLSWrite)
     r = vlib.tlc_must_pass('MergeLaws', 'MergeLaws.cfg', workers=8, timeout=900, keep=True)
     c.add_tlc('MergeLaws.cfg', r)
